@@ -38,16 +38,20 @@ type Log struct {
 	stepErr  string
 	// per scenario
 	nontrivial bool
-	lost       bool
+	muted      bool   // scenario is over: late callbacks of the teardown are not observations
+	preDone    func() // real-socket driver: collect what the server received before a completion is logged
 }
 
 func (l *Log) begin(sid int) {
 	l.sid, l.i = sid, 0
-	l.nontrivial = false
+	l.nontrivial, l.muted, l.preDone = false, false, nil
 	l.emit(Ev{Ev: "New"})
 }
 
 func (l *Log) emit(e Ev) {
+	if l.muted {
+		return
+	}
 	l.i++
 	e.Comp, e.Sid, e.I = "ws", l.sid, l.i
 	l.w.Emit(e)
@@ -73,6 +77,9 @@ func (l *Log) Wire(f WireFrame) {
 	l.emit(Ev{Ev: "Wire", K: f.Kind, T: f.Tok, C: f.Code})
 }
 func (l *Log) Done(api string, id int, err error) {
+	if l.preDone != nil && !l.muted {
+		l.preDone()
+	}
 	l.stepErr = ErrClass(err)
 	l.emit(Ev{Ev: "Done", Api: api, Id: id, Err: l.stepErr})
 }
